@@ -86,6 +86,9 @@ package reftable
 //@   nopanic
 //@   modifies r.ALLFIELDS
 //@   ensures[keeps-the-key-it-is-given] {C01, C02} ok ==> r.RefName == key
+//@   ensures[l3:reads-the-update-index-first] {C01} ok && vlen(buf) >= 1 ==> r.UpdateIndex == vval(buf)
+//@   ensures[l3:accepts-a-one-hash-record] {C01} valType == 1 && vlen(buf) >= 1 && len(buf) >= vlen(buf) + hashSize ==> ok && n == vlen(buf) + hashSize
+//@   ensures[l3:reads-the-hash] {C01} ok && valType == 1 && vlen(buf) >= 1 ==> len(r.Value) == hashSize && (forall k int :: 0 <= k && k < hashSize ==> r.Value[k] == old(buf[vlen(buf) + k]))
 //@   ensures ok ==> 0 < n && n <= len(buf)
 
 //@ func (*indexRecord).decode
@@ -180,6 +183,12 @@ package reftable
 //@   props C01 C14
 //@   modifies buf[0:len(buf)], pv
 
+// C01 layer 3 (one-hash ref records): see verif_lemmas.go. The hash must not live in the output buffer.
+//@ func lemmaRefValueRoundTrip
+//@   props C01
+//@   requires ref(r.Value) != ref(buf)
+//@   modifies buf[0:len(buf)], pv, anyof(*RefRecord), anyof([]byte)
+
 //@ func lemmaKeyRoundTrip
 //@   props C01 C14
 //@   results k2, v2, fits, accepted
@@ -269,6 +278,9 @@ package reftable
 //@   nopanic
 //@   modifies buf[0:len(buf)], pv
 //@   ensures fits ==> 1 <= n && n <= len(buf)
+//@   ensures[l3:update-index-comes-first] {C01} fits && r.UpdateIndex < 4611686018427387904 ==> vlen(buf) >= 1 && vlen(buf) <= 9 && vval(buf) == r.UpdateIndex
+//@   ensures[l3:length-of-a-one-hash-record] {C01} fits && r.UpdateIndex < 4611686018427387904 && len(r.Value) > 0 && len(r.TargetValue) == 0 && len(r.Target) == 0 ==> n == vlen(buf) + len(r.Value)
+//@   ensures[l3:the-hash-follows] {C01} fits && r.UpdateIndex < 4611686018427387904 && len(r.Value) > 0 && len(r.Target) == 0 && ref(r.Value) != ref(buf) ==> (forall k int :: vlen(buf) <= k && k < vlen(buf) + len(r.Value) ==> buf[k] == r.Value[k - vlen(buf)])
 
 //@ func (*indexRecord).encode
 //@   props C14 C01
